@@ -87,6 +87,9 @@ M = [
     ('df-groupby-mean-residue-over-zero', 'streamz/dataframe/aggregations.py', "        return (totals / counts).where(counts > 0)", "        return totals / counts", ['C07']),
     ('window-reset-index-drops-state', 'streamz/dataframe/core.py', "        return type(self)(self.root.reset_index(), n=self.n, value=self.value,\n                          with_state=self.with_state, start=self.start)", "        return type(self)(self.root.reset_index(), n=self.n, value=self.value)", ['C12']),
     ('collect-flush-releases-live-cache', 'streamz/core.py', "        self.cache.clear()\n        self.metadata_cache.clear()\n        ret = self._emit(out, metadata)\n        self._release_refs(metadata)", "        self.cache.clear()\n        ret = self._emit(out, metadata)\n        self._release_refs(self.metadata_cache)\n        self.metadata_cache.clear()", ['C04', 'C05']),
+    ('var-squares-in-own-dtype', 'streamz/dataframe/aggregations.py', "    return (x.astype('float64') ** 2).sum()", "    return (x ** 2).sum()", ['C06', 'C07']),
+    ('from-iterable-takes-item-before-looking', 'streamz/sources.py', "        while not self.stopped:\n            try:\n                x = next(iterator)\n            except StopIteration:\n                break\n            await asyncio.gather(*self._emit(x))", "        for x in iterator:\n            if self.stopped:\n                break\n            await asyncio.gather(*self._emit(x))\n            if self.stopped:\n                break", ['C18']),
+    ('source-running-flag-not-lowered-on-failure', 'streamz/sources.py', "        try:\n            result = self.run()\n            if isawaitable(result):\n                await result\n        finally:\n            self._running = False", "        result = self.run()\n        if isawaitable(result):\n            await result\n        self._running = False", ['C18']),
 ]
 
 
